@@ -68,7 +68,9 @@ def budget(tier):
 
 def scratch_dir():
     root = os.environ.get("VERIF_SCRATCH") or ("/dev/shm" if os.path.isdir("/dev/shm") else None)
-    return tempfile.mkdtemp(prefix="c11-", dir=root)
+    from hv.core import case_dir
+
+    return case_dir("c11", root)
 
 
 # ------------------------------------------------------------------------------------------- seeds
